@@ -363,6 +363,28 @@ def signature(case, tag):
 
 
 def replay(case):
+    if case.get("annealed"):
+        class _R:
+            msg = None
+
+            def nontrivial_case(self, *_a):
+                pass
+
+            def count(self, *_a):
+                pass
+
+            def fired(self, *_a):
+                pass
+
+            def scope(self, *_a, **_k):
+                pass
+
+            def violation(self, sig, _b):
+                self.msg = sig
+
+        r = _R()
+        run_annealed(r, "quick", random.Random(f"{case.get('seed', 0)}|C03|annealed"))
+        return (True, "every refined tree reports the definition's figures") if r.msg is None else (False, r.msg)
     inputs = tuple(tuple(t) for t in case["inputs"])
     output = tuple(case["output"])
     sd = {k: int(v) for k, v in case["sizes"].items()}
@@ -485,6 +507,60 @@ def _plans(tier, rng):
     return out
 
 
+# --------------------------------------------------------------------------
+# trees refined in place by simulated annealing / tempering: their per-node
+# figures are INSTALLED by the move evaluator instead of being recomputed
+# --------------------------------------------------------------------------
+def run_annealed(rep, tier, rng):
+    import cotengra as ctg
+    from cotengra import ContractionTree
+
+    n_eval = 0
+    count = 60 if tier == "quick" else 400
+    for k in range(count):
+        n = rng.randint(4, 7)
+        sd_seed = rng.randint(0, 10**6)
+        con = ctg.utils.rand_equation(n, 3, n_out=rng.randint(0, 2), n_hyper_in=rng.randint(1, 2), n_hyper_out=rng.randint(0, 1), d_min=2, d_max=4, seed=sd_seed)
+        inputs, output, sd = con.inputs, con.output, dict(con.size_dict)
+        ssa = scope.random_tree_ssa(n, rng)
+        how = rng.choice(("anneal", "anneal", "size-anneal"))
+        sseed = rng.randint(0, 10**6)
+        label = f"C03 {how}ed tree (seed {sseed}) of {eq_str(inputs, output)} sizes {''.join(f'{a}{b}' for a, b in sorted(sd.items()))} from tree {list(ssa)}"
+        with warnings.catch_warnings():
+            warnings.simplefilter("ignore")
+            try:
+                tree = ContractionTree.from_path(inputs, output, sd, ssa_path=ssa)
+                if how == "anneal":
+                    tree.simulated_anneal_(tsteps=6, numiter=6, seed=sseed)
+                else:
+                    tree = tree.simulated_anneal(tsteps=3, numiter=10, minimize="size", seed=sseed)
+                got = tree.contract_stats()
+                spec = spec_costs(inputs, output, sd, tuple(tree.get_ssa_path()), ())
+                want = {"flops": spec["total_flops"], "write": spec["total_write"], "size": spec["max_size"]}
+                msg = None
+                for kk in ("flops", "write", "size"):
+                    if got.get(kk) != want[kk]:
+                        msg = f"contract_stats()['{kk}'] = {got.get(kk)} but the definition gives {want[kk]} for the refined tree {tree.get_ssa_path()}"
+                        break
+                if msg is None:
+                    for p, _l, _r in spec["steps"]:
+                        if tree.get_size(p) != spec["size"][p] or tree.get_flops(p) != spec["flops"][p] or set(tree.get_legs(p)) != set(spec["legs"][p]):
+                            msg = f"node {sorted(p)}: size/flops/legs {tree.get_size(p)}/{tree.get_flops(p)}/{sorted(tree.get_legs(p))} but the definition gives {spec['size'][p]}/{spec['flops'][p]}/{sorted(spec['legs'][p])}"
+                            break
+            except Exception as e:  # noqa: BLE001
+                msg = f"raised {type(e).__name__}: {str(e)[:100]}"
+        n_eval += 1
+        rep.nontrivial_case(_digest(label))
+        if msg is not None:
+            rep.violation(label + ": " + msg, {"module": MODULE, "case": {"annealed": True, "seed": seed(), "index": k}})
+            break
+    rep.count(n_eval)
+    rep.fired("annealed trees: every figure == definition on the refined tree", n_eval)
+    rep.scope("trees refined by simulated annealing", n_eval, False,
+              bound=f"{count} sampled networks of 4-7 tensors with hyper indices, random start tree, seeded annealing (6x6 sweeps) or size-targeted annealing; totals and per-node size/flops/legs against the independent evaluator on the refined tree's own path")
+    return n_eval
+
+
 def run_bounded(rep: Report, tier: str) -> None:
     global _DEADLINE
     errs = selftest_evaluator()
@@ -553,6 +629,8 @@ def run_bounded(rep: Report, tier: str) -> None:
         if reported >= 5:
             break
     rep.extra["c03_violating_cases_seen"] = len(viols)
+    if not viols:
+        run_annealed(rep, tier, random.Random(f"{seed()}|C03|annealed"))
     rep.extra["c03_evaluator_selftest"] = "hand-computed examples reproduced (chain, outer product first, hyper, batch/output-shared, repeated+single-tensor leaf, sliced inner, projected, sliced output)"
     rep.explanation += (
         "C03 bounded: an evaluator written from the statement (an index survives a step iff it is an output index or sits on a "
